@@ -379,7 +379,16 @@ def final_sort(repo, chk):
     ok = bool(apps) and all(isinstance(a.args[0], ast.Name) for a in apps)
     chk.expect(ok, 'C08.7a', 'origin', fn.site(conc[0]), ast.unparse(conc[0]), 'the table is the concatenation of the grouped frames returned by the streaming function', 'the ranked table must be the concatenation of the grouped frames')
     sorts = [n for n in own_nodes(fn.node) if isinstance(n, ast.Assign) and isinstance(n.value, ast.Call) and isinstance(n.value.func, ast.Attribute) and n.value.func.attr == 'sort_values' and isinstance(n.targets[0], ast.Name) and n.targets[0].id == name]
-    writes = [c for c in calls(fn, attr='to_csv') if isinstance(c.func.value, ast.Name) and c.func.value.id == name and 'pairwise_ranks.tsv' in ast.unparse(c)]
+    def _path_text(c):
+        # the path argument with local names resolved one level (path = os.path.join(folder, 'pairwise_ranks.tsv'); frame.to_csv(path, ..))
+        a0 = c.args[0] if c.args else next((k.value for k in c.keywords if k.arg == 'path_or_buf'), None)
+        txt = ast.unparse(c)
+        if isinstance(a0, ast.Name):
+            for n_ in own_nodes(fn.node):
+                if isinstance(n_, ast.Assign) and len(n_.targets) == 1 and isinstance(n_.targets[0], ast.Name) and n_.targets[0].id == a0.id:
+                    txt += ' ' + ast.unparse(n_.value)
+        return txt
+    writes = [c for c in calls(fn, attr='to_csv') if isinstance(c.func.value, ast.Name) and c.func.value.id == name and 'pairwise_ranks.tsv' in _path_text(c)]
     if len(sorts) != 1 or len(writes) != 1:
         chk.bad('C08.7b', 'R15', fn.site(), f'{name} = {name}.sort_values(by=["Score"]); {name}.to_csv(pairwise_ranks.tsv)', f'{len(sorts)} sorts / {len(writes)} writes of pairwise_ranks.tsv found (expected one each)')
         return
